@@ -168,11 +168,16 @@ structure Rule where
   sceneReject : List Nat
   /-- a temporal `require` executed while the scenario is running gets a monitor -/
   dynMonitored : Bool
+  /-- `propositions.Implies` defines `evaluate()` (needed when a non-temporal `require` is executed while a
+      simulation is running: `veneer.require` then calls `req.evaluate()` instead of using a monitor) -/
+  impliesEval : Bool
 deriving Repr, DecidableEq
 
 inductive Outcome where
   | accepted
   | rejectedAt (t : Nat)
+  /-- the run ends with an exception that is not a rejection -/
+  | crashed
 deriving Repr, DecidableEq
 
 /-- a requirement in force for `N` steps (monitor updated at relative steps `0 … N-1`, scenario stopped
@@ -188,9 +193,27 @@ def run (c : MonCfg) (R : Rule) (f : F) (σ : Trace) (N : Nat) : Outcome :=
 def sceneOK (c : MonCfg) (R : Rule) (f : F) (σ : Trace) : Bool :=
   !R.sceneReject.contains (evalAt c σ 1 f 0)
 
-/-- a `require` executed inside a running scenario (`_addDynamicRequirement`) -/
+/-- every node of a non-temporal formula has an `evaluate()` method -/
+def F.evaluable (impliesEval : Bool) : F → Bool
+  | .atom _ | .tt | .ff => true
+  | .not f => f.evaluable impliesEval
+  | .and a b | .or a b => a.evaluable impliesEval && b.evaluable impliesEval
+  | .implies a b => impliesEval && a.evaluable impliesEval && b.evaluable impliesEval
+  | .next _ | .until _ _ | .eventually _ | .always _ => false
+
+/-- a non-temporal `require` executed while a simulation is running (`veneer.require`): evaluated once, in
+    the current step, with `req.evaluate()` -/
+def runImmediate (R : Rule) (f : F) (σ : Trace) : Outcome :=
+  if f.evaluable R.impliesEval then (if f.pval (σ 0) then .accepted else .rejectedAt 0) else .crashed
+
+/-- a `require` in the setup block of a scenario that is started while the simulation runs: a temporal one is
+    registered before `_start` builds the monitors, a non-temporal one is evaluated on the spot -/
+def runRuntimeSetup (c : MonCfg) (R : Rule) (f : F) (σ : Trace) (N : Nat) : Outcome :=
+  if f.prop then runImmediate R f σ else run c R f σ N
+
+/-- a `require` executed inside a running scenario (compose block; `_addDynamicRequirement`) -/
 def runDynamic (c : MonCfg) (R : Rule) (f : F) (σ : Trace) (N : Nat) : Outcome :=
-  if R.dynMonitored then run c R f σ N else .accepted
+  if f.prop then runImmediate R f σ else if R.dynMonitored then run c R f σ N else .accepted
 
 /-- what the property asks of the rule -/
 def Rule.Canonical (R : Rule) : Prop :=
